@@ -33,6 +33,10 @@ def _corpus(pid: str):
         for prop, rules in expect.get(sid, {}).items():
             if prop == pid:
                 out.append({"id": "seeded:" + sid, "prop": pid, "kind": "mutant", "patch": str(d), "expect": rules, "what": "independent seeded change " + sid})
+    # behaviour-preserving refactorings written by independent sub-agents (digest-equal on an end-to-end run): every
+    # property's check must stay silent on each of them
+    for d in sorted((seeded / "twins").glob("*/patch.diff")):
+        out.append({"id": "twin:" + d.parent.name, "prop": pid, "kind": "twin", "patch": str(d), "what": "independent benign refactoring " + d.parent.name})
     return out
 
 
